@@ -101,7 +101,7 @@ Proof.
   destruct (is_empty (p_redirect p)); [discriminate|].
   destruct (validate_optionals cfg p c); [discriminate|].
   destruct (is_empty (p_resp_type p)); [discriminate|].
-  destruct (cf_resource_required cfg); [discriminate|].
+  destruct (andb (cf_resource_required cfg) (no_res (p_resources p))); [discriminate|].
   destruct (andb (cf_openid_required cfg) (negb (contains_openid (p_scopes p)))); [discriminate|].
   destruct (andb (rt_contains (p_resp_type p) "id_token") (negb (contains_openid (p_scopes p)))); [discriminate|].
   destruct (andb (rt_contains (p_resp_type p) "id_token") (is_empty (p_nonce p))); [discriminate|].
